@@ -45,4 +45,28 @@ mod verif_text {
 			}
 		}
 	}
+
+	// concrete spellings through the REAL std text primitives (to_ascii_lowercase, trim, split_once, parse), which the Verus units treat as
+	// uninterpreted: a handful of samples, so bounded; they are the witnesses consulted when the text_forms / ma_text units no longer extract
+	#[kani::proof]
+	#[kani::unwind(20)]
+	fn vk_source_concrete_spellings() {
+		assert!(matches!(Source::from_str("close"), Ok(v) if v == Source::Close));
+		assert!(matches!(Source::from_str(" High"), Ok(v) if v == Source::High));
+		assert!(matches!(Source::from_str("LOW "), Ok(v) if v == Source::Low));
+		assert!(matches!(Source::from_str("hlc3"), Ok(v) if v == Source::TP));
+		assert!(Source::from_str("clos").is_err());
+		assert!(Source::from_str("").is_err());
+	}
+	#[kani::proof]
+	#[kani::unwind(20)]
+	fn vk_ma_concrete_spellings() {
+		use crate::helpers::MA;
+		assert!(matches!(MA::from_str("sma-3"), Ok(v) if v == MA::SMA(3)));
+		assert!(matches!(MA::from_str("tema-7"), Ok(v) if v == MA::TEMA(7)));
+		assert!(MA::from_str("sma-256").is_err() || crate::core::PeriodType::MAX as usize > 255);
+		assert!(MA::from_str("sma").is_err());
+		assert!(MA::from_str("foo-3").is_err());
+		assert!(MA::from_str("ema-x").is_err());
+	}
 }
